@@ -31,7 +31,7 @@ theorem C07_tie_timeout_path :
     Gen.calls_qbft_node_uponChangeRoundPartialQuorum = ["TimeoutForRound", "CreateRoundChange", "Broadcast"] ∧
     Gen.calls_qbft_node_hasReceivedProposalJustificationForLeadingRound =
       ["MessagesForRound", "HasQuorum", "RoundChangePrepared", "isProposalJustificationForLeadingRound"] ∧
-    Gen.src_qbft_CanProcessMessages = "ef0275cbce529d81" ∧ Gen.src_qbft_RoundRobinProposer = "97146df341242e9d" := by decide
+    Gen.src_qbft_CanProcessMessages = "7232faa48f591b33" ∧ Gen.src_qbft_RoundRobinProposer = "a01bb36809ae1f4a" := by decide
 
 /-- leader rotation: the model's index is the kernel translated from `RoundRobinProposer`, which stays inside the committee
     for every round ≥ 1 and every height below 2^63 -/
